@@ -123,84 +123,53 @@ def r1(mods):
         return undec("R1", "__exit__", rel(path), "FailSafe.__exit__ not found")
     args = [a.arg for a in ex.args.args]
     exc_type = args[1] if len(args) > 1 else "exc_type"
-    # walk top-level if/elif chain
-    handled_branch = None
-    results = []  # (conds(list of atoms lists), return value src, node)
+    # The verdict of __exit__ is read off its decision table (R7 machinery: rows
+    # `outcome <= conjunction of conditions`, boolean locals replaced by their definition,
+    # conditions in normal form), so the shape of the if/elif ladder does not matter.
+    rows = decision_table(ex)
+    none_atom = " is ".join(sorted((exc_type, "None")))
+    sub_atom = f"issubclass({exc_type}, self._handle_on)"
 
-    def walk(stmts, conds):
-        """Records returns/statements with the branch conditions that hold; returns the
-        conditions at the fall-through end of the list, or None if every path returned."""
-        for st in stmts:
-            if isinstance(st, ast.If):
-                pos = norm(st.test, True)
-                neg = norm(st.test, False)
-                end_body = walk(st.body, conds + [("pos", st.test, pos)])
-                end_else = walk(st.orelse, conds + [("neg", st.test, neg)]) if st.orelse else conds + [("neg", st.test, neg)]
-                if end_body is None and end_else is None:
-                    return None
-                if end_body is None:
-                    conds = end_else
-                elif end_else is None:
-                    conds = end_body
-                continue
-            if isinstance(st, ast.Return):
-                results.append((list(conds), src(st.value) if st.value else "None", st))
-                return None
-            results.append((list(conds), "stmt:" + src(st), st))
-        return conds
+    def has(row, atom, pol):
+        return (atom if pol else "!" + atom) in row["when"]
 
-    walk(ex.body, [])
     n_true_handled = n_false = n_true_ok = 0
-    for conds, val, node in results:
-        if not isinstance(node, ast.Return):
-            continue
-        atoms = []
-        raw = []
-        for kind, test, a in conds:
-            raw.append(("not " if kind == "neg" else "") + src(test))
-            if a:
-                atoms += a
-        is_exc = has_rel(atoms, exc_type, "is not", "None")
-        no_exc = has_rel(atoms, exc_type, "is", "None") or any(k == "neg" and src(t) == f"{exc_type} is not None" for k, t, _ in conds)
-        handled = any(a == f"issubclass({exc_type}, self._handle_on)" and o == "truthy" for (a, o, b) in atoms)
-        if val == "True":
-            if handled and is_exc:
+    verdicts = {}  # key -> [ok, message, offending conditions]
+
+    def note(key, ok, msg, where):
+        v = verdicts.setdefault(key, [True, msg, []])
+        if not ok:
+            v[0] = False
+            v[2].append(where)
+
+    for row in rows:
+        out, where = row["out"], " ; ".join(row["when"])
+        handled = has(row, sub_atom, True) and has(row, none_atom, False)
+        no_exc = has(row, none_atom, True)
+        if out == "RET True":
+            if handled:
                 n_true_handled += 1
-                check(True, "R1", "exit/true-for-handled-exception", loc(path, node), "returns True under exc_type is not None and issubclass(exc_type, self._handle_on)")
+                note("exit/true-for-handled-exception", True, "returns True under exc_type is not None and issubclass(exc_type, self._handle_on)", where)
             else:
-                # must be the no-exception path: every enclosing positive test mentioning exc_type must be negated
-                only_no_exc = no_exc
-                n_true_ok += 1 if only_no_exc else 0
-                check(only_no_exc, "R1", "exit/true-only-without-exception", loc(path, node),
-                      f"returns True on the path [{'; '.join(raw)}] (want: only when no exception is in flight - an application exception must never be swallowed)")
-        elif val == "False":
+                n_true_ok += 1 if no_exc else 0
+                note("exit/true-only-without-exception", no_exc, "besides handled gateway errors, True is returned only when no exception is in flight (an application exception must never be swallowed)", where)
+        elif out == "RET False":
             n_false += 1
-            ok = is_exc and not handled
-            check(ok, "R1", "exit/false-propagates-foreign-exception", loc(path, node), f"returns False under [{'; '.join(raw)}] (want: exception present and not a gateway error)")
-        elif val.replace(" ", "") == f"{exc_type}isNone" and not handled:
-            n_true_ok += 1
-            n_false += 1
-            check(True, "R1", "exit/true-iff-no-exception", loc(path, node), "returns `exc_type is None`: True without exception, False (propagate) otherwise")
-        else:
-            check(False, "R1", "exit/unexpected-return", loc(path, node), f"__exit__ returns {val}")
-    if n_true_handled != 1 or n_false < 1 or n_true_ok != 1:
-        undec("R1", "exit/shape", loc(path, ex), f"expected one handled-True, one no-exception-True and a False return; found {n_true_handled}/{n_true_ok}/{n_false}")
-    # _on_error only in the handled branch; counter reset only on the no-exception path
-    for conds, val, node in results:
-        if isinstance(node, ast.Return):
-            continue
-        s = src(node)
-        atoms = []
-        for kind, test, a in conds:
-            if a:
-                atoms += a
-        handled = any(a == f"issubclass({exc_type}, self._handle_on)" and o == "truthy" for (a, o, b) in atoms)
-        if "self._on_error()" in s:
-            check(handled, "R1", "exit/on-error-only-for-handled", loc(path, node), "_on_error() is called only for a handled (gateway) exception")
-        if s.replace(" ", "") == "self._error_counter=0":
-            no_exc = has_rel(atoms, exc_type, "is", "None")
-            check(no_exc, "R1", "exit/counter-reset-only-on-success", loc(path, node),
-                  "the consecutive-failure counter is cleared only when the block ended without any exception (an application exception is not a gateway success)")
+            note("exit/false-propagates-foreign-exception", has(row, none_atom, False) and has(row, sub_atom, False), "False is returned exactly for an exception that is not a gateway error", where)
+        elif out.startswith("RET") or out.startswith("RAISE"):
+            note("exit/unexpected-return", False, f"__exit__ does `{out}`", where)
+        elif out == "DO self._on_error()":
+            note("exit/on-error-only-for-handled", handled, "_on_error() is called only for a handled (gateway) exception", where)
+        elif out.replace(" ", "") == "DOself._error_counter=0":
+            note("exit/counter-reset-only-on-success", no_exc, "the consecutive-failure counter is cleared only when the block ended without any exception (an application exception is not a gateway success)", where)
+    for key, (ok, msg, wheres) in sorted(verdicts.items()):
+        check(ok, "R1", key, loc(path, ex), msg + ("" if ok else f"; violated under {wheres[:2]}"))
+    if n_true_handled < 1 or n_false < 1 or n_true_ok < 1:
+        undec("R1", "exit/shape", loc(path, ex), f"expected a handled-True, a no-exception-True and a False outcome; found {n_true_handled}/{n_true_ok}/{n_false}")
+    if not any(r_["out"] == "DO self._on_error()" for r_ in rows):
+        check(False, "R1", "exit/on-error-only-for-handled", loc(path, ex), "_on_error() is never called: gateway failures are not counted")
+    if not any(r_["out"].replace(" ", "") == "DOself._error_counter=0" for r_ in rows):
+        check(False, "R1", "exit/counter-reset-only-on-success", loc(path, ex), "the consecutive-failure counter is never cleared on success")
     # writers of _error_counter = 0
     for n in ast.walk(cls):
         if isinstance(n, ast.Assign) and len(n.targets) == 1 and self_attr(n.targets[0], "_error_counter") and isinstance(n.value, ast.Constant) and n.value.value == 0:
@@ -329,9 +298,11 @@ def r3(mods):
         for n in ast.walk(ini):
             if isinstance(n, (ast.AnnAssign, ast.Assign)):
                 tgt = n.target if isinstance(n, ast.AnnAssign) else n.targets[0]
-                if self_attr(tgt) and tgt.attr in want and isinstance(n.value, ast.BoolOp):
-                    d = src(n.value.values[-1])
-                    ok = (tgt.attr == "_max_errors_allowed" and d == "_DEFAULT_MAX_ERROR_ALLOWED") or (tgt.attr == "_cooldown_time" and d == "_DEFAULT_FAILSAFE_COOLDOWN_SEC")
+                if self_attr(tgt) and tgt.attr in want and n.value is not None:
+                    # the default constant the assignment mentions (`x or DEFAULT`, or a helper given DEFAULT)
+                    ds = sorted({x.id for x in ast.walk(n.value) if isinstance(x, ast.Name) and x.id.startswith("_DEFAULT")})
+                    d = ",".join(ds)
+                    ok = (tgt.attr == "_max_errors_allowed" and ds == ["_DEFAULT_MAX_ERROR_ALLOWED"]) or (tgt.attr == "_cooldown_time" and ds == ["_DEFAULT_FAILSAFE_COOLDOWN_SEC"])
                     check(ok, "R3", f"wiring/default/{tgt.attr}", loc(fpath, n), f"{tgt.attr} falls back to {d}")
 
 
@@ -546,8 +517,14 @@ def _product(xs, ys):
     return out
 
 
+# boolean locals that are assigned once from a boolean expression stand for that expression
+_DEFS = {}
+
+
 def cond_dnf(test, pol=True):
     """disjunctive normal form of a branch condition: list of frozenset((atom, polarity))"""
+    if isinstance(test, ast.Name) and test.id in _DEFS:
+        return cond_dnf(_DEFS[test.id], pol)
     if isinstance(test, ast.UnaryOp) and isinstance(test.op, ast.Not):
         return cond_dnf(test.operand, not pol)
     if isinstance(test, ast.Constant) and isinstance(test.value, bool):
@@ -627,6 +604,8 @@ def decision_table(fn):
                 return None
             if is_log(st) or isinstance(st, ast.Pass):
                 continue
+            if isinstance(st, ast.Assign) and len(st.targets) == 1 and isinstance(st.targets[0], ast.Name) and st.targets[0].id in _DEFS and _DEFS[st.targets[0].id] is st.value:
+                continue  # the definition of a boolean local: no effect of its own
             emit(f"DO {src(st)}", conds)
             if isinstance(st, (ast.Assign, ast.AugAssign, ast.AnnAssign)):
                 tgts = st.targets if isinstance(st, ast.Assign) else [st.target]
@@ -636,6 +615,23 @@ def decision_table(fn):
         return conds
 
     _VERS.clear()
+    _DEFS.clear()
+    assigned = {}
+    for n in ast.walk(fn):
+        if isinstance(n, (ast.Assign, ast.AugAssign, ast.AnnAssign)):
+            for t in (n.targets if isinstance(n, ast.Assign) else [n.target]):
+                if isinstance(t, ast.Name):
+                    assigned.setdefault(t.id, []).append(n)
+        elif isinstance(n, (ast.For, ast.With, ast.NamedExpr)):
+            for t in ast.walk(n.target if isinstance(n, (ast.For, ast.NamedExpr)) else ast.Tuple(elts=[i.optional_vars for i in n.items if i.optional_vars], ctx=ast.Store())):
+                if isinstance(t, ast.Name):
+                    assigned.setdefault(t.id, []).append(n)
+    for name, sites in assigned.items():
+        if len(sites) == 1 and isinstance(sites[0], ast.Assign) and len(sites[0].targets) == 1 and _is_boolean_expr(sites[0].value):
+            # (only when nothing the expression reads is assigned in this function)
+            reads = {x.id for x in ast.walk(sites[0].value) if isinstance(x, ast.Name)}
+            if not (reads & set(assigned)):
+                _DEFS[name] = sites[0].value
     end = walk(fn.body, [frozenset()])
     if end is not None:
         emit("RET None", end)
